@@ -89,14 +89,16 @@ def coq_node(n):
 
 
 def inventories_of(lst):
-    """bytes of every inventory.json of a listing (root and version directories)"""
-    out = []
+    """bytes of the inventories of a listing: the root inventory first, then those of the
+    version directories; [] when there is no root inventory"""
     if lst[0] != "d":
-        return out
+        return []
+    root = [nd[2] for name, nd in lst[1] if name == b"inventory.json" and nd[0] == "f" and nd[2] is not None]
+    if not root:
+        return []
+    out = [root[0]]
     for name, nd in lst[1]:
-        if name == b"inventory.json" and nd[0] == "f" and nd[2] is not None:
-            out.append(nd[2])
-        if nd[0] == "d":
+        if nd[0] == "d" and re.fullmatch(rb"v[0-9]+", name):
             for n2, nd2 in nd[1]:
                 if n2 == b"inventory.json" and nd2[0] == "f" and nd2[2] is not None:
                     out.append(nd2[2])
@@ -121,8 +123,9 @@ def g_verdicts(name, roots, batch=40):
         terms.append("g_object2 %s" % coq_node(lst))
         invs = []
         seen = set()
-        for x in inventories_of(lst):
-            if x not in seen and b"\\" in x:
+        allinv = inventories_of(lst)
+        for i, x in enumerate(allinv):
+            if x not in seen and b"\\" in x:      # the classifier can only fire on a text with a backslash
                 seen.add(x)
                 invs.append(x)
         terms.append("g_known_escape [%s]" % "; ".join(coq_bytes(x) for x in invs))
@@ -133,6 +136,8 @@ def g_verdicts(name, roots, batch=40):
         m = re.match(r"^\((.*),\s*(\[[^\]]*\]|nil)\)$", pair)
         if not m:
             raise common.BuildError("unexpected Coq value for g_object2: %r" % pair[:200])
+        if known not in ("true", "false"):
+            raise common.BuildError("unexpected Coq value for g_known_escape: %r" % known[:200])
         out.append({"fix": parse_codes(m.group(1)), "nofix": parse_codes(m.group(2)), "known": known == "true"})
     return out
 
